@@ -247,14 +247,14 @@ class _NormStub:
         return self.real.cdf(x)
 
 
-def h_bintest(ctx, target_only, two_chrom=False):
+def h_bintest(ctx, target_only, two_chrom=False, anti_name="Antitarget"):
     """do_bintest with segments: hits are exactly the bins whose BH-adjusted two-sided p is below alpha.
     two_chrom: bins on two chromosomes, the segment table listing them in the other order -- each
     bin is still tested against the mean of the segment it lies in."""
     if two_chrom:
-        bins = [("chr1", 0, 10, "A"), ("chr2", 0, 10, "Antitarget"), ("chr2", 10, 20, "B")]
+        bins = [("chr1", 0, 10, "A"), ("chr2", 0, 10, anti_name), ("chr2", 10, 20, "B")]
     else:
-        bins = [("chr1", 0, 10, "A"), ("chr1", 10, 20, "Antitarget"), ("chr1", 20, 30, "B")]
+        bins = [("chr1", 0, 10, "A"), ("chr1", 10, 20, anti_name), ("chr1", 20, 30, "B")]
     logs = [ctx.real(f"b{i}", -5, 5) for i in range(3)]
     wts = [0.75, 0.5, 0.9375]  # 1 - w has an exact square root: sd = 0.5, ~0.707, 0.25
     sl = ctx.real("seg", -5, 5)
@@ -278,7 +278,7 @@ def h_bintest(ctx, target_only, two_chrom=False):
         bintest.norm = orig
     got = {(r.chromosome, r.start): r for r in hits.data.itertuples(index=False)}
     ctx.observe("hits", [list(k) for k in sorted(got)])
-    use = [i for i in range(3) if not (target_only and bins[i][3] == "Antitarget")]
+    use = [i for i in range(3) if not (target_only and i == 1)]  # bin 1 is the off-target one (any of its aliases)
     zs = [(logs[i] - seg_of[i]) / float(np.sqrt(1 - wts[i])) for i in use]
     ps = [2 * phi(-Abs(z)) for z in zs]
     qs = bh_oracle(ps)
@@ -347,5 +347,5 @@ HARNESSES = [
     ),
     Harness("bivar_outlier", h_bivar_outlier, [{"n": n, "side": sd} for n in (3, 4) for sd in ("low", "high")], covers=["reached"], wall_s=200, query_timeout_ms=60000),
     Harness("p_adjust_bh", h_bh, [{"n": 1}, {"n": 2}, {"n": 3}, {"n": 4, "tier": "thorough"}], covers=["ties", "capped at 1"], wall_s=240, thorough_wall_s=1500),
-    Harness("bintest", h_bintest, [{"target_only": False}, {"target_only": True}, {"target_only": False, "two_chrom": True}], covers=["hit", "no hit"], wall_s=300, thorough_wall_s=1500),
+    Harness("bintest", h_bintest, [{"target_only": False}, {"target_only": True}, {"target_only": False, "two_chrom": True}, {"target_only": True, "anti_name": "Background"}], covers=["hit", "no hit"], wall_s=300, thorough_wall_s=1500),
 ]
